@@ -60,6 +60,14 @@ func c01One(c *Ctx, gc *GCase, sub string, local map[string]int64) bool {
 		return false
 	}
 	local["ParseStatement-equal"]++
+	// two parses are two trees: nothing mutable in one is part of the other
+	if gc.Idx%2 == 0 {
+		if sh := sharedNode(st, st2); sh != "" {
+			r.Violation("parses-share-a-node", det("the statements returned by two parses of this text share a mutable node: "+sh))
+			return false
+		}
+		local["parses-disjoint"]++
+	}
 	return true
 }
 
@@ -159,6 +167,97 @@ func c01Query(c *Ctx, idx int, local map[string]int64) {
 		}
 	}
 	local["query-equal"]++
+}
+
+// c01Long: flat statements of n repeated elements. Nothing in the grammar
+// limits how many fields, sources, terms, list items or statements a text may
+// have, and repeating an element does not nest anything.
+func c01Long(c *Ctx, n int) {
+	r := c.R
+	rep := func(f func(i int) string, sep string) string {
+		var sb strings.Builder
+		for i := 0; i < n; i++ {
+			if i > 0 {
+				sb.WriteString(sep)
+			}
+			sb.WriteString(f(i))
+		}
+		return sb.String()
+	}
+	num := func(p string) func(int) string { return func(i int) string { return p + fmt.Sprint(i) } }
+	fix := func(s string) func(int) string { return func(int) string { return s } }
+	cases := []struct {
+		name, text string
+		count     func(q *influxql.Query) int
+	}{
+		{"now()-terms", "SELECT x FROM m WHERE " + rep(func(i int) string { return fmt.Sprintf("now() > t%d", i) }, " AND "), func(q *influxql.Query) int { return countNodes01(q, "call") }},
+		{"argless-call-fields", "SELECT " + rep(fix("f()"), ", ") + " FROM m", func(q *influxql.Query) int { return len(q.Statements[0].(*influxql.SelectStatement).Fields) }},
+		{"statements", rep(fix("SELECT now() FROM m WHERE time > now() - 1h"), ";"), func(q *influxql.Query) int { return len(q.Statements) }},
+		{"groups", "SELECT " + rep(fix("(a)"), " + ") + " FROM m", func(q *influxql.Query) int { return countNodes01(q, "paren") }},
+		{"signed-operands", "SELECT x FROM m WHERE " + rep(fix("-a < +b"), " OR "), func(q *influxql.Query) int { return countNodes01(q, "varref") / 2 }},
+		{"list-items", "SHOW TAG KEYS WITH KEY IN (" + rep(num("k"), ", ") + ")", func(q *influxql.Query) int {
+			return len(q.Statements[0].(*influxql.ShowTagKeysStatement).TagKeyExpr.(*influxql.ListLiteral).Vals)
+		}},
+		{"sources", "SELECT x FROM " + rep(num("m"), ", "), func(q *influxql.Query) int { return len(q.Statements[0].(*influxql.SelectStatement).Sources) }},
+		{"dimensions", "SELECT mean(x) FROM m GROUP BY " + rep(num("t"), ", "), func(q *influxql.Query) int { return len(q.Statements[0].(*influxql.SelectStatement).Dimensions) }},
+		{"call-arguments", "SELECT f(" + rep(num("a"), ", ") + ") FROM m", func(q *influxql.Query) int {
+			return len(q.Statements[0].(*influxql.SelectStatement).Fields[0].Expr.(*influxql.Call).Args)
+		}},
+		{"casts-and-regexes", "SELECT " + rep(func(i int) string { return fmt.Sprintf("v%d::float", i) }, ", ") + " FROM " + rep(func(i int) string { return fmt.Sprintf("/^m%d$/", i) }, ", "), func(q *influxql.Query) int {
+			return len(q.Statements[0].(*influxql.SelectStatement).Sources)
+		}},
+	}
+	for _, cs := range cases {
+		var q *influxql.Query
+		var err error
+		var got int
+		det := func(why string) map[string]interface{} {
+			return map[string]interface{}{"sub": "long", "n": n, "input": trunc(cs.text, 200), "case": cs.name, "why": why}
+		}
+		if p, pv, stk := mon.Try(func() {
+			q, err = influxql.ParseQuery(cs.text)
+			if err == nil {
+				got = cs.count(q)
+			}
+		}); p {
+			d := det(fmt.Sprint(pv))
+			d["stack"] = stk
+			r.Violation("panic-in-parse", d)
+			continue
+		}
+		r.Eval(1)
+		r.DistinctStr(fmt.Sprintf("long|%s|%d", cs.name, n))
+		if err != nil {
+			r.Violation("grammatical-statement-rejected", det(fmt.Sprintf("%d repeated elements (%s): %v", n, cs.name, err)))
+			continue
+		}
+		if got != n {
+			r.Violation("ast-differs-from-denoted", det(fmt.Sprintf("%d elements written (%s), %d in the tree", n, cs.name, got)))
+			continue
+		}
+		r.Count("long."+cs.name, 1)
+	}
+}
+
+func countNodes01(q *influxql.Query, kind string) int {
+	n := 0
+	influxql.WalkFunc(q, func(nd influxql.Node) {
+		switch nd.(type) {
+		case *influxql.Call:
+			if kind == "call" {
+				n++
+			}
+		case *influxql.ParenExpr:
+			if kind == "paren" {
+				n++
+			}
+		case *influxql.VarRef:
+			if kind == "varref" {
+				n++
+			}
+		}
+	})
+	return n
 }
 
 // langShape records the dispatch tree: every path with its handler tokens and
@@ -266,7 +365,7 @@ func c01Known(gc *GCase, errText string) string {
 
 func checkC01(c *Ctx) (string, bool, []string) {
 	r := c.R
-	rule := "AST-first generation: for each of the 44 statement kinds every subset of its optional clauses with minimal payloads (exhaustive), rendered in two layouts; plus random payloads (names of 1-3 segments, regex sources, back-references, subqueries, casts, wildcards, calls, all operators, every literal kind incl. boundary integers, signed operands) in random spellings (keyword case, quoting, escapes, number and duration spellings, whitespace kinds). Each text goes through ParseQuery and ParseStatement, and stand-alone generated expressions through ParseExpr; every result is compared structurally with the intended AST. Queries of 2-4 generated statements joined by `;` must return exactly the intended statement list (half of the members with every option left out, so each kind is followed directly by the separator). Before the workload, clones of the dispatch tree are customised at every group (new statements, replaced handlers) and the default language must be unchanged. Non-trivial = at least one optional clause present or an expression with an operator; distinct by text."
+	rule := "AST-first generation: for each of the 44 statement kinds every subset of its optional clauses with minimal payloads (exhaustive), rendered in two layouts; plus random payloads (names of 1-3 segments, regex sources, back-references, subqueries, casts, wildcards, calls, all operators, every literal kind incl. boundary integers, signed operands) in random spellings (keyword case, quoting, escapes, number and duration spellings, whitespace kinds). Each text goes through ParseQuery and ParseStatement, and stand-alone generated expressions through ParseExpr; every result is compared structurally with the intended AST, and the trees of two parses of one text must share no mutable node. Queries of 2-4 generated statements joined by `;` must return exactly the intended statement list (half of the members with every option left out, so each kind is followed directly by the separator). Flat statements of 70 ... 30,000 (120,000) repeated elements - argument-less calls, groups, signed operands, fields, sources, dimensions, list items, call arguments, statements - must be accepted with exactly that many elements. Before the workload, clones of the dispatch tree are customised at every group (new statements, replaced handlers) and the default language must be unchanged. Non-trivial = at least one optional clause present or an expression with an operator; distinct by text."
 	assume := []string{"the generator's model of the grammar (README plus parser extensions listed in DESIGN.md section 2)", "structural equality = astx canonical dump"}
 	if c.Replay != nil {
 		opt := gen.Opts{}
@@ -289,6 +388,10 @@ func checkC01(c *Ctx) (string, bool, []string) {
 			c01Query(c, replayInt(c, "idx"), map[string]int64{})
 			return rule, false, assume
 		}
+		if sub == "long" {
+			c01Long(c, replayInt(c, "n"))
+			return rule, false, assume
+		}
 		if sub == "language-clone" {
 			c01LanguageClone(c)
 			return rule, false, assume
@@ -304,6 +407,10 @@ func checkC01(c *Ctx) (string, bool, []string) {
 	}
 	// 0. API history: customised clones of the dispatch tree
 	c01LanguageClone(c)
+	// 0b. long flat statements
+	for _, n := range []int{70, 300, 2000, 12000, c.N(30000, 120000)} {
+		c01Long(c, n)
+	}
 	// 1. exhaustive clause subsets
 	type job struct{ kind, mask int }
 	var jobs []job
